@@ -9,7 +9,7 @@
      0 < D := S*Sxx - Sx^2,  ua^2 = q*Sxx/D,  ub^2 = q*S/D,  r*ua*ub = -q*Sx/D,  0 <= ua, ub
    i.e. (a,b) solves the (weighted) normal equations and (ua, ub, r) describe q (X^T W X)^-1. *)
 From Coq Require Import ZArith List Bool Reals Lra Lia.
-From GTCV Require Import Num RNum Vector VectorFacts Opres KTypes Kernel LPU WS WSGroups FitLib LineFitA LineFitAFacts LineFitAPredict.
+From GTCV Require Import Num RNum Vector VectorFacts Opres KTypes Kernel LPU WS WSGroups FitLib LineFitA LineFitAFacts LineFitAPredict LineFitAEquiv.
 From GTCV.gen Require Import Gen_type_a_fit.
 Import ListNotations.
 Local Open Scope R_scope.
@@ -92,6 +92,18 @@ Theorem C13_ols_equivariance_partial :
   fs_df fs' = fs_df fs /\ fs_n fs' = fs_n fs.
 Proof. exact ols_values_equivariant. Qed.
 Print Assumptions C13_ols_equivariance_partial.
+
+(* (5c) the WEIGHTED fit (line_fit_wls) is equivariant in its values too, for the same
+   uncertainties u(y_i): same transformed slope and intercept, same dof and N (by uniqueness of
+   the solution of the weighted normal equations; PARTIAL like (5b): values, dof, N) *)
+Theorem C13_wls_equivariance_partial :
+  forall (l : list pt) al be ga de dof fs fs', al <> 0 ->
+  g_line_fit_wls RNum (map px l) (map py l) (map pu l) dof = Ok fs ->
+  g_line_fit_wls RNum (map (fun p => al * px p + be) l) (map (fun p => ga * py p + de) l) (map pu l) dof = Ok fs' ->
+  fs_bx fs' = ga * fs_bx fs / al /\ fs_ax fs' = ga * fs_ax fs + de - ga * fs_bx fs / al * be /\
+  fs_df fs' = fs_df fs /\ fs_n fs' = fs_n fs.
+Proof. exact wls_values_equivariant. Qed.
+Print Assumptions C13_wls_equivariance_partial.
 
 (* the same algebra for any design (weighted fits): transformed sums, transformed solution *)
 Theorem C13_normal_eqs_equivariant :
